@@ -3,6 +3,7 @@ package main
 import (
 	"fmt"
 	"go/token"
+	"go/types"
 	"os"
 	"sort"
 	"strings"
@@ -34,6 +35,8 @@ func ruleC08(r *Report) {
 	br := &BoundsRules{R: r, A: a, S: sc}
 	sel, _ := encCertSelector(p)
 	br.Check(append([]*ssa.Function{sel}, stringHelpersOf(p, sel)...), "C08.cert-index", boundsOpts{OnlySchemaDerived: true})
+	r.Rule("C08.cipher", "the block ciphers the root package (where the IdP picks the assertion cipher) refers to are ciphers whose Encrypt/Decrypt pair passes the C10 framing and flow obligations on this tree (xmlenc.GCM's encrypter does not: known findings)", 1)
+	safely(r, func() { checkAssertionCipher(r, p, "C08.cipher") })
 	r.Rule("C08.current-key", "the encryption certificate is a function of the metadata registered now: the selector and the helpers it is split into read no package-level variable that the library writes at run time (a cache keyed by entity ID keeps encrypting to a key the SP has retired)", 1)
 	checkNoProcessStateFor(r, p, sel, "C08.current-key", "the encryption certificate does not depend on state the library keeps between calls",
 		"the certificate selection consults", "assertions keep being encrypted to the certificate seen first after the SP registered a new one, so the SP's current key cannot open them and the retired key can")
@@ -993,4 +996,139 @@ func stringHelpersOf(p *Prog, fn *ssa.Function) []*ssa.Function {
 		}
 	}
 	return out
+}
+
+// checkAssertionCipher: C08.cipher. "Recoverable with the SP's private key": the block cipher the IdP encrypts assertions
+// with is one whose Encrypt/Decrypt pair agrees on this tree. The framing and flow obligations of C10 are evaluated on a
+// scratch report; a cipher type for which any of them fails (including the recorded known findings: GCM.Encrypt seals a
+// zero buffer and prepends no nonce) must not be referenced from the root package, where the IdP chooses its cipher.
+func checkAssertionCipher(r *Report, p *Prog, rule string) {
+	scratch := NewReport("C10", r.Tier, p, nil)
+	safely(scratch, func() { checkC10Framing(scratch, p) })
+	badKind := map[string]string{}
+	for _, o := range scratch.Obls {
+		if o.Verdict != "violated" && o.Verdict != "undecided" {
+			continue
+		}
+		for _, k := range []string{"CBC", "GCM"} {
+			if strings.Contains(o.Construct, "xmlenc."+k) {
+				badKind[k] = firstNonEmpty(badKind[k], o.Rule+": "+o.Construct)
+			}
+		}
+	}
+	kindOf := map[string]string{} // exported xmlenc cipher variable -> type name
+	for _, a := range exportedAlgorithms(p) {
+		if a.Kind == "CBC" || a.Kind == "GCM" {
+			kindOf[a.Name] = a.Kind
+		}
+	}
+	// variables exportedAlgorithms could not read (built from a table): the dynamic type stored by the initialiser
+	if xp := p.SPkg[xmlencPath]; xp != nil {
+		typeKind := func(t types.Type) string {
+			if pt, ok := t.(*types.Pointer); ok {
+				t = pt.Elem()
+			}
+			if nm, ok := t.(*types.Named); ok && nm.Obj().Pkg() != nil && nm.Obj().Pkg().Path() == xmlencPath && (nm.Obj().Name() == "CBC" || nm.Obj().Name() == "GCM") {
+				return nm.Obj().Name()
+			}
+			return ""
+		}
+		for name, m := range xp.Members {
+			g, ok := m.(*ssa.Global)
+			if !ok || g.Object() == nil || !g.Object().Exported() || kindOf[name] != "" {
+				continue
+			}
+			if k := typeKind(g.Type().(*types.Pointer).Elem()); k != "" {
+				kindOf[name] = k
+				continue
+			}
+			if initFn := xp.Func("init"); initFn != nil {
+				for _, b := range initFn.Blocks {
+					for _, in := range b.Instrs {
+						if st, ok := in.(*ssa.Store); ok && st.Addr == ssa.Value(g) {
+							if mi, ok := st.Val.(*ssa.MakeInterface); ok {
+								if k := typeKind(mi.X.Type()); k != "" {
+									kindOf[name] = k
+								}
+							}
+						}
+					}
+				}
+			}
+		}
+	}
+	n := 0
+	use := ""
+	scan := func(fn *ssa.Function) {
+		for _, b := range fn.Blocks {
+			for _, in := range b.Instrs {
+				for _, op := range in.Operands(nil) {
+					if op == nil || *op == nil {
+						continue
+					}
+					g, ok := (*op).(*ssa.Global)
+					if !ok || g.Pkg == nil || g.Pkg.Pkg.Path() != xmlencPath {
+						continue
+					}
+					k, isCipher := kindOf[g.Name()]
+					if !isCipher {
+						continue
+					}
+					if nameOnlyUse(in) {
+						continue // xmlenc.X.Algorithm(): the identifier, not the cipher
+					}
+					n++
+					if why, bad := badKind[k]; bad {
+						use = firstNonEmpty(use, fmt.Sprintf("xmlenc.%s (a %s) is referenced at %s, and %s fails on this tree", g.Name(), k, p.InstrPos(in), why))
+					}
+				}
+			}
+		}
+	}
+	for _, fn := range p.modFns {
+		if p.InLibrary(fn) && fn.Pkg != nil && fn.Pkg.Pkg.Path() == modPath {
+			scan(fn)
+		}
+	}
+	if pk := p.SPkg[modPath]; pk != nil {
+		if initFn := pk.Func("init"); initFn != nil {
+			scan(initFn)
+		}
+	}
+	r.Check(n > 0 && use == "", rule, "the IdP encrypts assertions only with ciphers whose Encrypt and Decrypt agree", "-", fmt.Sprintf("%d references to xmlenc block ciphers in the root package, all to sound ones", n), "the IdP can select a block cipher whose encrypter does not produce what its decrypter reads: "+use+" — the SP cannot recover such an assertion")
+}
+
+// nameOnlyUse: the instruction loads a cipher variable only to ask for its Algorithm() or KeySize().
+func nameOnlyUse(in ssa.Instruction) bool {
+	v, ok := in.(ssa.Value)
+	if !ok || v.Referrers() == nil || len(*v.Referrers()) == 0 {
+		return false
+	}
+	for _, ref := range *v.Referrers() {
+		c, ok := ref.(ssa.CallInstruction)
+		if !ok {
+			return false
+		}
+		com := c.Common()
+		name := ""
+		if com.IsInvoke() {
+			if com.Value != v {
+				return false
+			}
+			name = com.Method.Name()
+		} else if f := com.StaticCallee(); f != nil && len(com.Args) > 0 && com.Args[0] == v && f.Signature.Recv() != nil {
+			name = f.Name()
+			for _, a := range com.Args[1:] {
+				if a == v {
+					return false
+				}
+			}
+		} else {
+			return false
+		}
+		if name != "Algorithm" && name != "KeySize" {
+			return false
+		}
+	}
+	return true
 }
